@@ -168,6 +168,7 @@ where
     K: KeyT + for<'a> From<&'a KeyRef>,
     V: ValT + Default,
     KeyRef: hb::Equivalent<K>,
+    crate::elem::KeyLen: hb::Equivalent<K>,
 {
     pub fn new(case: &'c Case) -> Self {
         let plan = plan_from_header(case, "");
@@ -839,6 +840,13 @@ where
                 let c2 = s.map.contains_key(&KeyRef(k));
                 if c != c2 {
                     bad!("C01", "equivalent-lookup-differs", "contains_key({k}) via Key = {c}, via KeyRef = {c2}");
+                }
+                // an unsized equivalent form (all such keys start at one address)
+                if let (true, Some(kl)) = (self.lawful, crate::elem::KeyLen::of(k)) {
+                    let c3 = s.map.get(kl).is_some();
+                    if c3 != c {
+                        bad!("C01", "equivalent-lookup-differs", "key {k}: contains_key via Key = {c}, get via the unsized form = {c3}");
+                    }
                 }
                 (if c { want.map(|w| w.val).or(Some(0)) } else { None }, None)
             }
@@ -1861,6 +1869,7 @@ where
     K: KeyT + for<'a> From<&'a KeyRef>,
     V: ValT + Default,
     KeyRef: hb::Equivalent<K>,
+    crate::elem::KeyLen: hb::Equivalent<K>,
 {
     world::install_panic_hook();
     world::reset();
